@@ -292,7 +292,7 @@ def _drain(k, fs):
     saved = me.proc
     me.proc = "harness"
     try:
-        k.block_until(lambda: not any(k._runnable(th) for th in k.threads if th is not me), "drain")
+        k.drain()
     except (Deadlock, StepCap, SimCrash):
         pass
     finally:
